@@ -90,37 +90,47 @@ var errStream = errors.New("scripted stream failure")
 // ---------------------------------------------------------------- capturing storage client
 
 type capture struct {
-	calls  int
-	count  int
-	docs   []byte // decompressed docs payload
-	metas  []frac.MetaData
-	failIt bool
+	calls    int
+	count    int
+	docs     []byte // decompressed docs payload
+	metas    []frac.MetaData
+	failIt   bool
+	bad      string // the payload could not be decoded
+	rawMetas []byte
 }
 
-func (c *capture) StoreDocuments(_ context.Context, count int, docs, metas []byte) error {
+func (c *capture) StoreDocuments(_ context.Context, count int, docs, metas []byte) (err error) {
 	c.calls++
 	c.count = count
-	raw, err := disk.DocBlock(docs).DecompressTo(nil)
-	if err != nil {
-		panic("capture: docs block does not decompress: " + err.Error())
+	c.docs, c.metas = nil, nil
+	defer func() {
+		if p := recover(); p != nil {
+			c.bad = fmt.Sprint("payload handed to StoreDocuments cannot be decoded: ", p)
+		}
+		if c.failIt {
+			err = errors.New("scripted store failure")
+		}
+	}()
+	raw, derr := disk.DocBlock(docs).DecompressTo(nil)
+	if derr != nil {
+		c.bad = "docs block does not decompress: " + derr.Error()
+		return nil
 	}
 	c.docs = raw
-	rawMetas, err := disk.DocBlock(metas).DecompressTo(nil)
-	if err != nil {
-		panic("capture: metas block does not decompress: " + err.Error())
+	rawMetas, derr := disk.DocBlock(metas).DecompressTo(nil)
+	if derr != nil {
+		c.bad = "metas block does not decompress: " + derr.Error()
+		return nil
 	}
-	c.metas = nil
+	c.rawMetas = rawMetas
 	u := packer.NewBytesUnpacker(rawMetas)
 	for u.Len() > 0 {
 		var m frac.MetaData
-		if err := m.UnmarshalBinary(u.GetBinary()); err != nil {
-			panic("capture: meta does not unmarshal: " + err.Error())
+		if uerr := m.UnmarshalBinary(u.GetBinary()); uerr != nil {
+			c.bad = "meta does not unmarshal: " + uerr.Error()
+			return nil
 		}
-		// copy tokens away from the shared buffer
 		c.metas = append(c.metas, frac.MetaData{ID: m.ID, Size: m.Size})
-	}
-	if c.failIt {
-		return errors.New("scripted store failure")
 	}
 	return nil
 }
@@ -142,6 +152,9 @@ const (
 	driftPast   = 24 * time.Hour
 	driftFuture = 2 * time.Hour
 )
+
+// future drift the time-field generator aims at (the end-to-end environment has its own)
+var curFuture = driftFuture
 
 func newIngestor(cl bulk.StorageClient, maxDoc int) *bulk.Ingestor {
 	mp, err := mappingprovider.New("", mappingprovider.WithMapping(seq.Mapping{
@@ -275,6 +288,9 @@ func fmtStored(cp *capture) string {
 	if cp.calls == 0 {
 		return "none"
 	}
+	if cp.bad != "" {
+		return "undecodable"
+	}
 	if cp.calls > 1 {
 		return fmt.Sprintf("calls=%d", cp.calls)
 	}
@@ -362,14 +378,14 @@ func genTimeField(r *vh.RNG, now time.Time) (string, timeCat, time.Time) {
 		cat = tWithin
 		t = now.Add(-time.Duration(r.Intn(int(driftPast/time.Second)-600)) * time.Second)
 		if r.Bool() {
-			t = now.Add(time.Duration(r.Intn(int(driftFuture/time.Second)-600)) * time.Second)
+			t = now.Add(time.Duration(r.Intn(int(curFuture/time.Second)-600)) * time.Second)
 		}
 	case 3:
 		cat = tPast
 		t = now.Add(-driftPast - time.Duration(600+r.Intn(1000000))*time.Second)
 	case 4:
 		cat = tFuture
-		t = now.Add(driftFuture + time.Duration(600+r.Intn(1000000))*time.Second)
+		t = now.Add(curFuture + time.Duration(600+r.Intn(1000000))*time.Second)
 	default:
 		cat = tFarFuture
 		t = time.Date(2400+r.Intn(7000), time.Month(1+r.Intn(12)), 1+r.Intn(28), r.Intn(24), 0, 0, 0, time.UTC)
@@ -503,35 +519,33 @@ func genRequest(r *vh.RNG, B int, now time.Time, wild bool) genBody {
 
 // expectation for a non-mutated body whose lines are all terminated (computed from the generator's knowledge,
 // independently of the Lean model): (accepted, stored docs in order, index of entries stored)
-func expect(g genBody, B int) (accepted bool, stored []entry, invalidReached bool) {
+//
+// How many action lines are checked for "create"/"index" is the code's choice, not the property's: a body with an
+// unknown action line has no expected verdict (`open`), only "accepted => stored exactly ..., else nothing".
+func expect(g genBody, B int) (accepted bool, stored []entry, invalidReached bool, open bool) {
 	B = bufSize(B)
-	n := 0
 	for _, e := range g.entries {
-		for _, b := range e.blanks {
-			_ = b // blank lines ("" or "\r") are skipped at an action position
-		}
 		if len(e.action)+len(e.aterm) > B {
-			return false, nil, false
+			return false, nil, false, false
 		}
-		if n < 5 && !strings.Contains(e.action, `"create"`) && !strings.Contains(e.action, `"index"`) {
-			return false, nil, false
+		if !strings.Contains(e.action, `"create"`) && !strings.Contains(e.action, `"index"`) {
+			open = true
 		}
-		n++
 		if len(e.doc)+len(e.term) > B {
 			continue // over-size: skipped
 		}
 		if e.doc == "" {
-			return false, nil, false
+			return false, nil, false, false
 		}
 		switch e.kind {
 		case dInvalid:
-			return false, nil, true
+			return false, nil, true, false
 		case dNonObject:
 			continue
 		}
 		stored = append(stored, e)
 	}
-	return true, stored, false
+	return true, stored, false, open
 }
 
 // ---------------------------------------------------------------- channels
@@ -598,7 +612,7 @@ func addReadlineCases(ch *vh.Channel, r *vh.RNG, o vh.Opts) {
 		run(stream, B, 0, false, false, "cr-at-boundary")
 		run(stream, B, 7, true, true, "cr-at-boundary")
 	}
-	n := o.Pick(300, 6000)
+	n := o.Pick(300, 40000)
 	for i := 0; i < n; i++ {
 		B := []int{16, 17, 32, 64}[r.Intn(4)]
 		l := r.Intn(3 * B)
@@ -629,7 +643,7 @@ func frameImpl(c reqCase) (string, [][]byte) {
 }
 
 func frameReq(c reqCase) string {
-	return fmt.Sprintf("bulk.frame %d %s %s 5 %s", bufSize(c.B), vh.B(c.eager), vh.B(!c.unclean), vh.Hex(c.body))
+	return fmt.Sprintf("bulk.frame %d %s %s %s", bufSize(c.B), vh.B(c.eager), vh.B(!c.unclean), vh.Hex(c.body))
 }
 
 func kindsTable(docs [][]byte) string {
@@ -650,7 +664,7 @@ func kindsTable(docs [][]byte) string {
 func procCase(ch *vh.Channel, c reqCase, tags ...string) reqResult {
 	_, docs := frameImpl(c)
 	res := runRequest(c)
-	req := fmt.Sprintf("bulk.proc %d %s %s 5 %s %s %s", bufSize(c.B), vh.B(c.eager), vh.B(!c.unclean), vh.B(!c.storeKO), vh.Hex(c.body), kindsTable(docs))
+	req := fmt.Sprintf("bulk.proc %d %s %s %s %s %s", bufSize(c.B), vh.B(c.eager), vh.B(!c.unclean), vh.B(!c.storeKO), vh.Hex(c.body), kindsTable(docs))
 	var impl string
 	switch {
 	case res.panicked != "":
@@ -708,7 +722,9 @@ func ingestCase(ch *vh.Channel, c reqCase, req time.Time, tags ...string) {
 		kv = append(kv, e)
 	}
 	stored := "none"
-	if cp.calls == 1 {
+	if cp.bad != "" {
+		stored = "undecodable"
+	} else if cp.calls == 1 {
 		var ms []string
 		for _, m := range cp.metas {
 			ms = append(ms, fmt.Sprintf("%d/%d", uint64(m.ID.MID), m.Size))
@@ -726,7 +742,7 @@ func ingestCase(ch *vh.Channel, c reqCase, req time.Time, tags ...string) {
 	default:
 		impl = "err 500 " + stored
 	}
-	reqLine := fmt.Sprintf("bulk.ingest %d %s %s 5 %s %s %d %d %s %s", bufSize(c.B), vh.B(c.eager), vh.B(!c.unclean), vh.B(!c.storeKO),
+	reqLine := fmt.Sprintf("bulk.ingest %d %s %s %s %s %d %d %s %s", bufSize(c.B), vh.B(c.eager), vh.B(!c.unclean), vh.B(!c.storeKO),
 		nsOf(req), int64(driftPast), int64(driftFuture), vh.Hex(c.body), vh.JoinStrs(kv, ","))
 	if cp.calls > 0 {
 		tags = append(tags, "stored")
@@ -860,7 +876,7 @@ func timeCases(r *vh.RNG, o vh.Opts) []timeCase {
 		kc(`{"time":"2026-09-25 09:30:00.123456789","ts":"2026-09-25 08:00:00"}`, at(9, 30, 123456789)),
 		kc(`{"timestamp":"2026-09-25 10:00","time":"2026-09-25 11:00:00"}`, at(11, 0, 0)),
 		timeCase{req: req, doc: `{"timestamp":1790000000,"time":"2026-09-25 11:00:00"}`, drift: drift, fut: fut})
-	n := o.Pick(150, 3000)
+	n := o.Pick(150, 15000)
 	for i := 0; i < n; i++ {
 		var off time.Duration
 		switch r.Intn(4) {
@@ -950,10 +966,10 @@ const tUnknown timeCat = -1
 // expectFromBody computes the expectation for any body whose lines are all terminated, from the bytes alone
 // (line-level walk written independently of the Lean model; insane-json's verdict as oracle).  Used for mutated
 // bodies and for replays, where the generator's knowledge is not available.
-func expectFromBody(body []byte, B int) (known, accepted bool, stored []entry, invalid bool) {
+func expectFromBody(body []byte, B int) (known, accepted bool, stored []entry, invalid bool, open bool) {
 	B = bufSize(B)
 	if len(body) > 0 && body[len(body)-1] != '\n' {
-		return false, false, nil, false
+		return false, false, nil, false, false
 	}
 	lines := bytes.Split(body, []byte("\n"))
 	lines = lines[:len(lines)-1]
@@ -963,23 +979,21 @@ func expectFromBody(body []byte, B int) (known, accepted bool, stored []entry, i
 		}
 		return l
 	}
-	n := 0
 	for i := 0; i < len(lines); {
 		l := lines[i]
 		i++
 		if len(l)+1 > B {
-			return true, false, nil, false
+			return true, false, nil, false, false
 		}
 		a := strip(l)
 		if len(a) == 0 {
 			continue
 		}
-		if n < 5 && !bytes.Contains(a, []byte(`"create"`)) && !bytes.Contains(a, []byte(`"index"`)) {
-			return true, false, nil, false
+		if !bytes.Contains(a, []byte(`"create"`)) && !bytes.Contains(a, []byte(`"index"`)) {
+			open = true
 		}
-		n++
 		if i >= len(lines) {
-			return true, false, nil, false
+			return true, false, nil, false, false
 		}
 		d := lines[i]
 		i++
@@ -988,27 +1002,39 @@ func expectFromBody(body []byte, B int) (known, accepted bool, stored []entry, i
 		}
 		sd := strip(d)
 		if len(sd) == 0 {
-			return true, false, nil, false
+			return true, false, nil, false, false
 		}
 		switch bulk.VerifJSONKind(sd) {
 		case 2:
-			return true, false, nil, true
+			return true, false, nil, true, false
 		case 1:
 			continue
 		}
 		stored = append(stored, entry{doc: string(sd), tcat: tUnknown})
 	}
-	return true, true, stored, false
+	return true, true, stored, false, open
 }
 
 func checkProperty(g genBody, c reqCase, res reqResult, orc *vh.Oracle, rep *vh.Report) {
 	known := !g.mutated
-	var accepted, invalid bool
+	var accepted, invalid, open bool
 	var stored []entry
 	if known {
-		accepted, stored, invalid = expect(g, c.B)
-	} else if !c.gz || true {
-		known, accepted, stored, invalid = expectFromBody(g.body, c.B)
+		accepted, stored, invalid, open = expect(g, c.B)
+	} else {
+		known, accepted, stored, invalid, open = expectFromBody(g.body, c.B)
+	}
+	if open && accepted {
+		// verdict left to the code: follow it, then hold it to the property
+		accepted = res.status == 200
+		if !accepted {
+			stored = nil
+		}
+	}
+	if res.cap.bad != "" {
+		violate(rep, vh.Violation{Site: "proxy/bulk/ingestor.go:ProcessDocuments", Class: "payload-undecodable",
+			What: res.cap.bad, Replay: []string{c.line()}})
+		return
 	}
 	if !known || c.unclean || c.storeKO {
 		// any body: an error answer must not have stored anything (store errors aside)
@@ -1023,6 +1049,9 @@ func checkProperty(g genBody, c reqCase, res reqResult, orc *vh.Oracle, rep *vh.
 	if g.mutated {
 		tags = append(tags, "expectation-from-bytes")
 	}
+	if open {
+		tags = append(tags, "unknown-action-line")
+	}
 	if invalid {
 		tags = append(tags, "invalid-json-line")
 	}
@@ -1035,7 +1064,7 @@ func checkProperty(g genBody, c reqCase, res reqResult, orc *vh.Oracle, rep *vh.
 	}
 	if !accepted {
 		orc.Case(c.line(), invalid, tags...)
-		if res.status == 200 {
+		if res.status == 200 && !open {
 			viol("accepted-although-invalid", "a request with an invalid line was answered 200")
 		}
 		if res.cap.calls > 0 {
@@ -1110,6 +1139,34 @@ func checkProperty(g genBody, c reqCase, res reqResult, orc *vh.Oracle, rep *vh.
 	}
 }
 
+// gzTruncCase: the gzip encoding of body cut to `cut` bytes - the stream fails in the middle; the request must
+// fail and store nothing.
+func gzTruncCase(body []byte, cut int, orc *vh.Oracle, rep *vh.Report) {
+	var zb bytes.Buffer
+	zw := gzip.NewWriter(&zb)
+	zw.Write(body)
+	zw.Close()
+	z := zb.Bytes()
+	if cut >= len(z) {
+		cut = len(z) - 1
+	}
+	cp := &capture{}
+	ing := newIngestor(cp, 256)
+	defer ing.Stop()
+	h := proxyapi.NewBulkHandler(ing, 256)
+	proxyapi.VerifResetReaderPool()
+	req := httptest.NewRequest(http.MethodPost, "/_bulk", bytes.NewReader(z[:cut]))
+	req.Header.Set("Content-Encoding", "gzip")
+	rec := httptest.NewRecorder()
+	h.ServeHTTP(rec, req)
+	line := fmt.Sprintf("gztrunc %d %s", cut, vh.Hex(body))
+	orc.Case(line, true, "truncated-gzip", fmt.Sprintf("status=%d", rec.Code))
+	if rec.Code == 200 || cp.calls > 0 || cp.bad != "" {
+		violate(rep, vh.Violation{Site: "proxyapi/http_bulk.go:BulkHandler", Class: "truncated-gzip-stored",
+			What: fmt.Sprintf("gzip body cut to %d of %d bytes: status %d, %d store calls", cut, len(z), rec.Code, cp.calls), Replay: []string{line}})
+	}
+}
+
 // ---------------------------------------------------------------- main
 
 // at most three violations per (site, class), so that one defect cannot crowd out another in the report
@@ -1124,6 +1181,10 @@ func violate(rep *vh.Report, v vh.Violation) {
 }
 
 func main() {
+	if len(os.Args) == 4 && os.Args[1] == "e2e-child" {
+		e2eChild(os.Args[2], os.Args[3])
+		return
+	}
 	o := vh.ParseFlags()
 	logger.SetLevel(zap.FatalLevel)
 	rep := vh.NewReport("C10", o)
@@ -1133,12 +1194,14 @@ func main() {
 	chFrame := vh.NewChannel("bulk.frame", "esBulkDocReader.ReadDoc until end/error vs SV.Bulk.readAll: documents yielded and kind of ending; exhaustive document-line lengths in [B-3,B+3] x terminators x position, plus grammar bodies with mutations, random chunking of the stream; non-trivial = at least one document yielded")
 	chProc := vh.NewChannel("bulk.proc", "POST /_bulk through the real BulkHandler and bulk.Ingestor into a capturing StorageClient vs SV.Bulk.processDocuments: status class, created items, number of store calls, decompressed docs payload; JSON verdicts of insane-json passed to the model as oracle; non-trivial = the reader yields at least one document")
 	chIngest := vh.NewChannel("bulk.ingest", "Ingestor.ProcessDocuments fed by the real esBulkDocReader.ReadDoc with a chosen request time vs SV.Bulk.processDocuments with metaFor: items, payload, and per stored document MID and Size of its meta (document times around the request time, beyond the drifts and beyond int64); non-trivial = at least one document stored")
-	chCodec := vh.NewChannel("bulk.codec", "captured docs payload: packer.BytesUnpacker vs SV.Bulk.decodeDocs, and SV.Bulk.encodeDocs of the decoded documents vs the payload; plus truncated payloads; non-trivial = at least two documents")
+	chCodec := vh.NewChannel("bulk.codec", "captured docs payload: packer.BytesUnpacker vs SV.Bulk.decodeDocs, and SV.Bulk.encodeDocs of the decoded documents vs the payload; plus truncated payloads; captured metas payload: MetaData.UnmarshalBinary per record vs SV.Bulk.decMeta (ids, size, token bytes) and re-encoding equals the payload; non-trivial = at least two documents")
 	chDelayed := vh.NewChannel("bulk.delayed", "bulk.documentDelayed vs the extracted translation documentDelayedX at 0, +-1, +-drift(+-1), int64 edges, random; non-trivial = |docDelay| beyond a drift limit")
 	chMid := vh.NewChannel("bulk.mid", "MID of the meta stored by Ingestor.ProcessDocuments for one document at a chosen request time vs SV.BulkTime.docMID (saturating Sub, wrapping UnixNano) on the doc time reported by extractDocTime; non-trivial = a time field parsed")
 	chExtract := vh.NewChannel("bulk.extract", "bulk.extractDocTime vs SV.BulkTime.extractDocTime with parseESTime/time.Parse results as oracle table; non-trivial = at least two time fields present")
 	orcProp := vh.NewOracle("bulk.property", "grammar bodies through the real handler; expectation from the generator: accepted => exactly the in-limit object lines stored in order byte for byte, items = count, one store call, meta size = len, ID time by the rule; a reachable invalid line => not 200 and nothing stored; non-trivial = some but not all document lines stored")
 	orcTime := vh.NewOracle("bulk.timerule", "Ingestor.ProcessDocuments with exact request time: MID = own time iff parsed and -future <= req-doc <= past (big-integer arithmetic), else receive time; boundaries +-1ns/+-1ms, years 1..9999; non-trivial = time field parsed")
+
+	orcE2E := vh.NewOracle("bulk.e2e", "real HTTP POST /_bulk (plain or gzip) into tests/setup.TestingEnv (ingestor + store, child process), then search by a per-request tag with fetch: accepted => exactly the qualifying documents can be fetched, byte for byte, items = count, ID times by the rule; rejected => nothing can be fetched; non-trivial = at least one document stored")
 
 	now := time.Now().UTC()
 
@@ -1158,12 +1221,23 @@ func main() {
 			if c, ok := parseTimeCase(l); ok {
 				runTimeCase(c, chMid, orcTime, rep)
 			}
+			if f := strings.Fields(l); len(f) == 3 && f[0] == "gztrunc" {
+				var cut int
+				fmt.Sscanf(f[1], "%d", &cut)
+				if b, err := hex.DecodeString(f[2]); err == nil {
+					gzTruncCase(b, cut, orcProp, rep)
+				}
+			}
+			if c, ok := parseE2ECase(l); ok {
+				runE2E([]e2eCase{c}, orcE2E, rep)
+			}
 		}
 		rep.AddChannel(chFrame, o.Driver)
 		rep.AddChannel(chProc, o.Driver)
 		rep.AddChannel(chMid, o.Driver)
 		rep.AddOracle(orcProp)
 		rep.AddOracle(orcTime)
+		rep.AddOracle(orcE2E)
 		rep.Write(o.Out)
 		return
 	}
@@ -1224,7 +1298,7 @@ func main() {
 				}
 			}
 		}
-		n := o.Pick(400, 8000)
+		n := o.Pick(400, 40000)
 		for i := 0; i < n; i++ {
 			B := []int{16, 32, 64, 64, 100, 256}[r.Intn(6)]
 			g := genRequest(r, B, now, true)
@@ -1239,10 +1313,10 @@ func main() {
 	}
 
 	// ---- proc + property oracle
-	var payloads [][]byte
+	var payloads, metaPayloads [][]byte
 	if want("bulk.proc") {
 		r := rng.Fork()
-		n := o.Pick(500, 8000)
+		n := o.Pick(500, 30000)
 		for i := 0; i < n; i++ {
 			B := []int{16, 64, 64, 100, 256, 1024}[r.Intn(6)]
 			wild := r.Chance(1, 2)
@@ -1262,6 +1336,7 @@ func main() {
 			checkProperty(g, c, res, orcProp, rep)
 			if res.cap.calls == 1 && len(payloads) < 400 {
 				payloads = append(payloads, res.cap.docs)
+				metaPayloads = append(metaPayloads, res.cap.rawMetas)
 			}
 		}
 		// the known witness through the handler: a document stamped in the year 2400
@@ -1272,9 +1347,44 @@ func main() {
 		checkProperty(g, c, res, orcProp, rep)
 	}
 
+	// truncated gzip bodies: the stream fails in the middle; the request must fail and store nothing
+	if want("bulk.proc") {
+		r := rng.Fork()
+		n := o.Pick(40, 1500)
+		for i := 0; i < n; i++ {
+			g := genRequest(r, 256, now, false)
+			if len(g.body) < 40 {
+				continue
+			}
+			var zb bytes.Buffer
+			zw := gzip.NewWriter(&zb)
+			zw.Write(g.body)
+			zw.Close()
+			gzTruncCase(g.body, 10+r.Intn(zb.Len()-10), orcProp, rep)
+		}
+		// huge and deeply nested documents around a large limit
+		for _, B := range []int{1 << 16, 1 << 20} {
+			if !o.Thorough() && B > 1<<16 {
+				continue
+			}
+			for _, d := range []int{-2, -1, 0, 1} {
+				deep := strings.Repeat(`{"a":`, 200) + `1` + strings.Repeat(`}`, 200)
+				big := padObject(r, `"message":"HUGE Value",`, B+d-1)
+				body := `{"index":{}}` + "\n" + deep + "\n" + `{"index":{}}` + "\n" + big + "\n" + `{"index":{}}` + "\n" + `{"k":"after"}` + "\n"
+				g := genBody{entries: []entry{
+					{action: `{"index":{}}`, aterm: "\n", term: "\n", doc: deep},
+					{action: `{"index":{}}`, aterm: "\n", term: "\n", doc: big},
+					{action: `{"index":{}}`, aterm: "\n", term: "\n", doc: `{"k":"after"}`}}, body: []byte(body)}
+				c := reqCase{B: B, chunk: 4096 + r.Intn(4096), eager: r.Bool(), body: g.body, gz: d == 0}
+				res := procCase(chProc, c, "huge")
+				checkProperty(g, c, res, orcProp, rep)
+			}
+		}
+	}
+
 	if want("bulk.ingest") {
 		r := rng.Fork()
-		n := o.Pick(300, 5000)
+		n := o.Pick(300, 20000)
 		req := time.Date(2026, 9, 25, 12, 0, 0, 987654321, time.UTC)
 		for i := 0; i < n; i++ {
 			B := []int{64, 100, 256, 1024}[r.Intn(4)]
@@ -1302,6 +1412,29 @@ func main() {
 					impl = "ok " + hexDocs(d2)
 				}
 				chCodec.Add("bulk.decode "+vh.Hex(q), impl, len(d2) >= 2, "truncated")
+			}
+		}
+	}
+
+	if want("bulk.codec") {
+		for _, p := range metaPayloads {
+			var recs []string
+			u := packer.NewBytesUnpacker(p)
+			ok := true
+			for u.Len() > 0 {
+				var m frac.MetaData
+				if err := m.UnmarshalBinary(u.GetBinary()); err != nil {
+					ok = false
+					break
+				}
+				var toks []string
+				for _, t := range m.Tokens {
+					toks = append(toks, vh.Hex(t.Key)+"="+vh.Hex(t.Value))
+				}
+				recs = append(recs, fmt.Sprintf("%d:%d:%d:%s", uint64(m.ID.MID), uint64(m.ID.RID), m.Size, vh.JoinStrs(toks, "+")))
+			}
+			if ok {
+				chCodec.Add("bulk.metas "+vh.Hex(p), "ok "+vh.JoinStrs(recs, ",")+" reenc=1", len(recs) >= 2, "metas")
 			}
 		}
 	}
@@ -1334,7 +1467,7 @@ func main() {
 		r := rng.Fork()
 		values := []string{"", "", "garbage", "2026-09-25 11:00:00", "2026-09-25 11:00:00.123", "2026-09-25T11:00:00Z", "2026-09-25T11:00:00.5+03:00",
 			"2026-02-30 11:00:00", "2026-09-25 11:00", "9999-12-31 23:59:59.999999999", "0000-01-01 00:00:00", "2400-01-01T00:00:00Z", "2026-09-25 11:00:00.", "1790000000"}
-		n := o.Pick(300, 4000)
+		n := o.Pick(300, 20000)
 		req := time.Date(2026, 9, 25, 12, 0, 0, 0, time.UTC)
 		for i := 0; i < n; i++ {
 			var vals [3]string
@@ -1394,8 +1527,12 @@ func main() {
 			rep.AddChannel(ch, o.Driver)
 		}
 	}
+	if want("bulk.e2e") {
+		runE2E(genE2ECases(rng.Fork(), o.Pick(12, 150), now), orcE2E, rep)
+	}
 	chRL.Exhaustive = true
 	rep.AddOracle(orcProp)
 	rep.AddOracle(orcTime)
+	rep.AddOracle(orcE2E)
 	rep.Write(o.Out)
 }
